@@ -32,7 +32,11 @@ import (
 	"verifharness/cw"
 	"verifharness/vh"
 
+	clientv3 "go.etcd.io/etcd/client/v3"
+
 	"github.com/projecteru2/core/store"
+	"github.com/projecteru2/core/store/etcdv3"
+	"github.com/projecteru2/core/store/etcdv3/meta"
 	"github.com/projecteru2/core/types"
 )
 
@@ -137,6 +141,7 @@ func (p *prober) lightTake() (probe, error) {
 // cmdProbe probes the deploy status before every command redis receives while a
 // store call of the deployment is in flight (redis backend; miniredis pre-hook).
 type cmdProbe struct {
+	torn    *tornReader
 	mu      sync.Mutex
 	armed   bool
 	match   []string // only commands mentioning one of these (workload id, marker key) belong to the call in flight
@@ -150,6 +155,9 @@ func (c *cmdProbe) install(w *cw.World) {
 		return
 	}
 	w.Redis.Server().SetPreHook(func(_ *server.Peer, _ string, args ...string) bool {
+		if c.torn != nil {
+			c.torn.request()
+		}
 		c.mu.Lock()
 		armed := c.armed
 		mine := false
@@ -187,6 +195,93 @@ func (c *cmdProbe) disarm() []probe {
 	out := c.probes
 	c.probes = nil
 	return out
+}
+
+// tornReader splits one GetDeployStatus call of a reader goroutine in two: the
+// reader is stopped before its splitAt-th request to the backend (redis command /
+// etcd Get), the driver then runs one complete store call, the reader goes on.
+type tornReader struct {
+	mu      sync.Mutex
+	active  bool
+	splitAt int
+	count   int
+	paused  chan struct{}
+	resume  chan struct{}
+}
+
+// request is called by the backend hook for every request; it blocks the reader at its split point
+func (t *tornReader) request() {
+	t.mu.Lock()
+	if !t.active {
+		t.mu.Unlock()
+		return
+	}
+	t.count++
+	if t.count != t.splitAt {
+		t.mu.Unlock()
+		return
+	}
+	t.active = false
+	paused, resume := t.paused, t.resume
+	t.mu.Unlock()
+	close(paused)
+	<-resume
+}
+
+// around runs f while a reader is stopped before its splitAt-th request; returns what the reader
+// got and whether it was really split (false: it finished before reaching the split point, f ran afterwards)
+func (t *tornReader) around(w *cw.World, nodes []string, splitAt int, f func()) (row []int, split bool) {
+	t.mu.Lock()
+	t.active, t.splitAt, t.count = true, splitAt, 0
+	t.paused, t.resume = make(chan struct{}), make(chan struct{})
+	paused, resume := t.paused, t.resume
+	t.mu.Unlock()
+	type res struct {
+		st  map[string]int
+		err error
+	}
+	done := make(chan res, 1)
+	go func() {
+		st, err := w.RawStore.GetDeployStatus(w.Ctx, app, entry)
+		done <- res{st, err}
+	}()
+	var out res
+	select {
+	case <-paused:
+		split = true
+		f()
+		close(resume)
+		out = <-done
+	case out = <-done:
+		t.mu.Lock()
+		t.active = false
+		t.mu.Unlock()
+		f()
+	}
+	if out.err != nil {
+		w.T.Fatalf("torn reader: %v", out.err)
+	}
+	for _, n := range nodes {
+		row = append(row, out.st[n])
+	}
+	return row, split
+}
+
+// etcd: the reader's requests are the Gets of the store's KV
+type kvTorn struct {
+	meta.KV
+	t *tornReader
+}
+
+func (k *kvTorn) Get(ctx context.Context, key string, opts ...clientv3.OpOption) (*clientv3.GetResponse, error) {
+	k.t.request()
+	return k.KV.Get(ctx, key, opts...)
+}
+
+func (t *tornReader) installEtcd(w *cw.World) {
+	if m, ok := w.RawStore.(*etcdv3.Mercury); ok {
+		m.KV = &kvTorn{KV: m.KV, t: t}
+	}
 }
 
 // sibling applications / entrypoints whose names share a prefix with (app, web):
@@ -280,7 +375,7 @@ type planEntry struct {
 }
 
 func emit(r *vh.Run, backend, stream, ident string, nodes []string, plan []planEntry, d0 []dkey, m0 []marker,
-	calls []call, probes []probe, intra [][]probe, left []marker, extra map[string]any) {
+	calls []call, probes []probe, intra [][]probe, torn [][][]int, left []marker, extra map[string]any) {
 	b := "Etcd"
 	if backend == "redis" {
 		b = "Redis"
@@ -325,8 +420,25 @@ func emit(r *vh.Run, backend, stream, ident string, nodes []string, plan []planE
 		it[i] = vh.List(rows)
 	}
 	r.Count(fmt.Sprintf("intra_probes>0=%v", nIntra > 0))
-	term := fmt.Sprintf("(mkCase %s %s %s %s %s %s %s %s %s %s)", b, vh.Str(ident), vh.StrList(nodes), vh.List(pl),
-		initTerm(d0, m0), vh.List(ct), vh.List(res), vh.List(pt), vh.List(it), vh.Bool(markersLeft))
+	tt := make([]string, len(calls))
+	nTorn := 0
+	for i := range calls {
+		rows := []string{}
+		if i < len(torn) {
+			for _, row := range torn[i] {
+				cells := make([]string, len(row))
+				for j, x := range row {
+					cells[j] = vh.ZI(x)
+				}
+				rows = append(rows, vh.List(cells))
+				nTorn++
+			}
+		}
+		tt[i] = vh.List(rows)
+	}
+	r.Count(fmt.Sprintf("straddling_readers>0=%v", nTorn > 0))
+	term := fmt.Sprintf("(mkCase %s %s %s %s %s %s %s %s %s %s %s)", b, vh.Str(ident), vh.StrList(nodes), vh.List(pl),
+		initTerm(d0, m0), vh.List(ct), vh.List(res), vh.List(pt), vh.List(it), vh.List(tt), vh.Bool(markersLeft))
 	injected, removes, adds := 0, 0, 0
 	for _, c := range calls {
 		if c.Inj {
@@ -391,7 +503,9 @@ func storeStream(t *testing.T) {
 		w, nodes := newWorld(t, backend)
 		pr := &prober{w: w, nodes: nodes}
 		addSiblings(w, nodes, rng.Intn, fmt.Sprintf("s%d", wno))
-		cp := &cmdProbe{pr: pr}
+		tornR := &tornReader{}
+		tornR.installEtcd(w)
+		cp := &cmdProbe{pr: pr, torn: tornR}
 		cp.install(w)
 		ctx := w.Ctx
 		st := w.RawStore
@@ -415,14 +529,17 @@ func storeStream(t *testing.T) {
 			calls := []call{}
 			probes := []probe{pr.take()}
 			intra := [][]probe{}
+			torn := [][][]int{}
 			do := func(c call) bool {
 				var err error
-				if c.Kind == "CAdd" {
-					cp.arm(c.ID, fmt.Sprintf("/processing/%s/%s/%s/%s", app, entry, c.Node, ident))
-				}
-				if c.Inj {
-					err = errors.New("injected")
-				} else {
+				run := func() {
+					if c.Kind == "CAdd" {
+						cp.arm(c.ID, fmt.Sprintf("/processing/%s/%s/%s/%s", app, entry, c.Node, ident))
+					}
+					if c.Inj {
+						err = errors.New("injected")
+						return
+					}
 					p := &types.Processing{Appname: app, Entryname: entry, Nodename: c.Node, Ident: ident}
 					switch c.Kind {
 					case "CCreateProc":
@@ -435,6 +552,30 @@ func storeStream(t *testing.T) {
 						err = st.DeleteProcessing(ctx, p)
 					}
 				}
+				// a reader whose own two reads straddle this call: on redis around AddWorkload (its reads are
+				// several commands each: any command boundary), on etcd (two Gets: one boundary) around any call
+				rows := [][]int{}
+				straddle := !c.Inj && ((c.Kind == "CAdd" && rng.Intn(2) == 0) || (backend == "etcd" && rng.Intn(4) == 0))
+				if straddle {
+					splitAt := 2
+					if backend == "redis" {
+						splitAt = 2 + rng.Intn(4)
+					}
+					row, split := tornR.around(w, nodes, splitAt, run)
+					if split {
+						rows = append(rows, row)
+						r.Count("straddling_reader:" + c.Kind)
+						before := probes[len(probes)-1]
+						for j := range nodes {
+							if row[j] < before.Status[j] && c.Kind == "CAdd" {
+								r.Count("straddling_reader_saw_torn_value")
+							}
+						}
+					}
+				} else {
+					run()
+				}
+				torn = append(torn, rows)
 				intra = append(intra, cp.disarm())
 				c.OK = err == nil
 				calls = append(calls, c)
@@ -500,7 +641,7 @@ func storeStream(t *testing.T) {
 				}
 				do(call{Kind: "CDelProc", Node: plan[pi].Node, Inj: rng.Intn(15) == 0})
 			}
-			emit(r, backend, "store", ident, nodes, plan, d0, m0, calls, probes, intra, pr.markers(), nil)
+			emit(r, backend, "store", ident, nodes, plan, d0, m0, calls, probes, intra, torn, pr.markers(), nil)
 			done++
 			// remove what this deployment left so that the next one starts clean of its ident
 			for _, m := range pr.markers() {
@@ -688,7 +829,7 @@ func deployStream(t *testing.T) {
 			if ident == "" {
 				ident = "none"
 			}
-			emit(r, backend, "deploy", ident, nodes, plan, d0, m0, calls, probes, intra, pr.markers(),
+			emit(r, backend, "deploy", ident, nodes, plan, d0, m0, calls, probes, intra, nil, pr.markers(),
 				map[string]any{"fault": fault, "strategy": strategy, "count": opts.Count, "messages": msgs, "failed_messages": failed})
 			r.Count("fault=" + fault)
 			done++
